@@ -106,6 +106,18 @@ fn decode_cases(ctx: &mut Ctx, idx: usize) {
             ctx.notes.push(format!("no secret found for digest class {}", what));
         }
     }
+    // secrets whose index-0 digest lies just above q (sharing its leading 26..32+ bits, table in revsecrets.rs): a
+    // canonicity test cut short after the leading bytes or the leading word takes the digest for canonical
+    {
+        let tab = crate::revsecrets::near_q_secrets();
+        for t in 0..tab.len().min(if ctx.thorough() { 64 } else { 6 }) {
+            // the closest ones first, then a rotating sample
+            let (s, bits) = if t < 3 { tab[t] } else { tab[(t + idx) % tab.len()] };
+            let d = digest_of(&s, 0);
+            decode_check(ctx, &reduced(&d), &s, 0, "digest-just-above-q");
+            ctx.count(&format!("digest-just-above-q:{}-leading-bits-shared", bits));
+        }
+    }
     // random secrets and indices with the matching lock when it exists
     for _ in 0..20 {
         let s = rand_scalar(&mut ctx.prng);
@@ -129,7 +141,15 @@ fn generate_cases(ctx: &mut Ctx, idx: usize) {
     let window = (start..start + 200_000).map(Scalar::from).find(|s| { let d = digest_of(s, 0); canonical(&d).is_none() && d[31] == 0x73 });
     for it in 0..6 {
         // it = 1, 2: secrets whose index loop runs long (first canonical digest at index 30..38, table in revsecrets.rs)
-        let secret = match (it, window) { (0, Some(s)) => s, (1, _) | (2, _) => crate::revsecrets::next_long_loop(ctx).map(|x| x.0).unwrap_or_else(|| rand_scalar(&mut ctx.prng)), _ => rand_scalar(&mut ctx.prng) };
+        // it = 3, 4: secrets whose index-0 digest lies just above q (the closest of the table, and a rotating one)
+        let near = crate::revsecrets::near_q_secrets();
+        let secret = match (it, window) {
+            (0, Some(s)) => s,
+            (1, _) | (2, _) => crate::revsecrets::next_long_loop(ctx).map(|x| x.0).unwrap_or_else(|| rand_scalar(&mut ctx.prng)),
+            (3, _) if !near.is_empty() => near[0].0,
+            (4, _) if !near.is_empty() => near[idx % near.len()].0,
+            _ => rand_scalar(&mut ctx.prng),
+        };
         let mut rng = ScriptedRng::new(ctx.prng.gen(), book.clone());
         rng.force_scalars(&[secret]);
         let p = match std::panic::catch_unwind(std::panic::AssertUnwindSafe(|| zkabacus_crypto::internal::test_new_revocation_pair(&mut rng))) {
